@@ -69,6 +69,13 @@ func (e *Eng) binop(op token.Token, a, b Val, hook func(kind, cond string), reac
 			return e.boolVal(sx("strless", append(append([]string{}, a.C...), b.C...)...))
 		}
 	}
+	if ub, isU := a.T.Underlying().(*types.Basic); isU && ub.Kind() == types.UnsafePointer {
+		// reference ids (Int sort in both encodings)
+		o := map[token.Token]string{token.LSS: "<", token.LEQ: "<=", token.GTR: ">", token.GEQ: ">="}[op]
+		if o != "" {
+			return e.boolVal(sx(o, a.C[0], b.C[0]))
+		}
+	}
 	bits, signed, ok := intInfo(a.T)
 	if !ok {
 		panic(fmt.Sprintf("binop %v on %v", op, a.T))
@@ -129,6 +136,9 @@ func (e *Eng) binop(op token.Token, a, b Val, hook func(kind, cond string), reac
 			return m
 		}
 		// at most one wrap (sum/difference of two in-range values)
+		mn := e.fresh("sum", "Int")
+		e.pre.asserts.WriteString("(assert (= " + mn + " " + m + "))\n")
+		m = mn
 		mod := pow2(bits)
 		if signed {
 			max := pow2m1(bits - 1)
@@ -362,7 +372,7 @@ func (e *Eng) strConcat(a, b Val) Val {
 	body := ite(e.ilt(tok, a.C[2]),
 		eq(sx("select", arr, tok), sx("select", sx("select", e.strMem(), a.C[0]), e.iadd(a.C[1], tok))),
 		eq(sx("select", arr, tok), sx("select", sx("select", e.strMem(), b.C[0]), e.iadd(b.C[1], e.isub(tok, a.C[2])))))
-	e.pre.qhyps = append(e.pre.qhyps, &QHyp{Var: tok, Sort: e.idxSort(), Guard: and(e.ile(e.idxLit(0), tok), e.ilt(tok, n)), Body: body, Offsets: []string{e.idxLit(0)}, Reach: "true"})
+	e.addQ(&QHyp{Var: tok, Sort: e.idxSort(), Guard: and(e.ile(e.idxLit(0), tok), e.ilt(tok, n)), Body: body, Offsets: []string{r + "\x00" + e.idxLit(0)}, Reach: "true"})
 	return res
 }
 
